@@ -26,6 +26,16 @@ func forPairs(p *Plan, shard int, f func(id int, it *Item, ea, eb *Entry)) {
 		if it.Mode == "built" {
 			continue
 		}
+		if it.Mode == "paired" {
+			// behaviours of the DocEdit machine: a = initial state, b = final state, targets = intermediate states
+			for _, pr := range loadPairs(p.Universe, it.Family) {
+				id++
+				if id%p.Shards == shard && (chunkN <= 1 || (id/p.Shards)%chunkN == chunkI) {
+					f(id, it, &Entry{D: pr.A, P: pr.Mids, NF: true}, &Entry{D: pr.B, P: pr.Mids, NF: true})
+				}
+			}
+			continue
+		}
 		fam := loadFamily(p.Universe, it.Family)
 		sel := make([]*Entry, 0, len(fam))
 		for k := range fam {
@@ -222,4 +232,14 @@ func hunksOrEmpty(h []codec.Hunk) []codec.Hunk {
 		return []codec.Hunk{}
 	}
 	return h
+}
+
+type editPair struct {
+	A    codec.Node   `json:"a"`
+	B    codec.Node   `json:"b"`
+	Mids []codec.Node `json:"mids"`
+}
+
+func loadPairs(dir, name string) []editPair {
+	return loadNdjson[editPair](dir, name)
 }
